@@ -95,7 +95,7 @@ func c05Case(c *Ctx, i int64) {
 					c.Count("mutants_became_legacy_not_judged", 1)
 					continue
 				}
-				pf, perr := ref.ParseFrame(m.Bytes[:consumed], ref.ParseOpts{})
+				pf, perr := ref.ParseFrame(m.Bytes[:consumed], ref.ParseOpts{EnforceBlockMax: true}) // a block that decodes to more than the declared maximum is rejected by the reference implementation (lz4 1.9.4: ERROR_decompressionFailed)
 				mc := "seq"
 				if rd.conc > 1 {
 					mc = "conc"
